@@ -61,9 +61,12 @@ var (
 
 const (
 	zzxBlockTime   = 10
-	zzxGenesisH    = 0
 	zzxSymbolicT0  = 1700000000 // genesis timestamp used under the engine (natively derived from the wall clock)
 )
+
+// zzxGenesisH: height of the genesis block of the nodes zzxNewNode builds (0 unless a harness about non-zero
+// genesis heights sets it before building its node).
+var zzxGenesisH uint32
 
 // zzxSkipGenesis: zzxNewNode returns before it processes the genesis block.
 var zzxSkipGenesis bool
